@@ -1,2 +1,520 @@
-import FpgoVerif.Model.C01
-/-! Property theorems for C01 (none yet). -/
+import FpgoVerif.Proofs.C01Lemmas
+import FpgoVerif.Gen.MaybeInventory
+/-! Property theorems for C01 — "Maybe: one consistent notion of absence, monad laws, total (never panics)".
+
+    All theorems are about the definitions of `Model/C01Maybe.lean` that the driver executes (`mk`, `just`,
+    `justGenerics`, the `MaybeV.*` methods, `cloneTo`), for ALL values `v : GoVal`, both constructors
+    (`Ctor.just` = `Maybe.Just`, `Ctor.generics T` = `JustGenerics[T]`), all heaps and all callbacks. -/
+
+set_option linter.unusedSimpArgs false
+
+namespace FpgoVerif.C01
+open Spec
+
+local notation "Heap" => List GoVal
+
+/-- Equality of all the observers the property names in its agreement clause (IsNil, IsPresent, Or, Let,
+    UnwrapInterface, Type, every conversion, ToString — the latter in the heap `h` in which the comparison is made,
+    since `%v` of a pointer to a struct/slice/map prints the pointee).  Defined here so that it cannot be weakened silently. -/
+def ObsEq (h : Heap) (m m' : MaybeV) : Prop :=
+  m.isNil = m'.isNil ∧ m.isPresent = m'.isPresent ∧ (∀ d, m.or d = m'.or d) ∧
+  (∀ (run : Nat → Nat) (s : Nat), m.letRun run s = m'.letRun run s) ∧
+  m.unwrapInterface = m'.unwrapInterface ∧ m.type = m'.type ∧
+  (∀ c ∈ allConversions, m.conv c = m'.conv c) ∧ m.toStr h = m'.toStr h
+
+theorem ObsEq.rfl' (h : Heap) (m : MaybeV) : ObsEq h m m := ⟨rfl, rfl, fun _ => rfl, fun _ _ => rfl, rfl, rfl, fun _ _ => rfl, rfl⟩
+
+/-- `v` is a legal value of the static type `T` (what the Go type checker guarantees for `JustGenerics[T](v)`) -/
+def HasTy (T : Ty) (v : GoVal) : Prop :=
+  implementsTy T v = true ∨ (v = .nil ∧ (T = .any ∨ ∃ U, T = .maybe U))
+
+/-- a cell of type `t` holds: a value of dynamic type `t`, or — `t` an interface type — nil or a value implementing `t` -/
+def PointeeOK (t : Ty) (x : GoVal) : Prop :=
+  if isIfaceTy t then (x = .nil ∨ implementsTy t x = true) else typeOf? x = some t
+
+/-- a non-nil pointer points to a live cell holding a value of its element type -/
+def WF (h : Heap) (v : GoVal) : Prop :=
+  ∀ t a, v = .ptr t (some a) → ∃ x, h[a]? = some x ∧ PointeeOK t x
+
+/-! ### one notion of absence -/
+
+/-- Construction never panics, and **every observer agrees with the one fact `absent v`**:
+    IsNil = absent; IsPresent = ¬IsNil; Or yields the fallback only when absent and otherwise `v` itself; Let runs
+    its callback exactly once when present and never when absent; UnwrapInterface / Type / every conversion report
+    nil / nil / (0, ErrConversionNil) exactly when absent; an absent value renders as "<nil>". -/
+theorem C01_agree (c : Ctor) (v : GoVal) :
+    ∃ m, mk c v = .ok m ∧
+      m.isNil = absent v ∧
+      m.isPresent = !m.isNil ∧
+      (∀ d, m.or d = if absent v then d else v) ∧
+      (∀ {σ} (run : σ → σ) (s : σ), m.letRun run s = if absent v then s else run s) ∧
+      (m.unwrapInterface = if absent v then .nil else v) ∧
+      (m.unwrapInterface = .nil ↔ absent v = true) ∧
+      (m.type = if absent v then none else typeOf? v) ∧
+      (m.type = none ↔ absent v = true) ∧
+      (∀ conv ∈ allConversions, (m.conv conv = .errNil ↔ absent v = true)) ∧
+      (absent v = true → ∀ h : Heap, m.toStr h = some (hexOfAscii "<nil>")) := by
+  refine ⟨built c v, mk_eq c v, ?_⟩
+  cases hab : absent v
+  · -- present
+    have hne : v ≠ .nil := not_absent_ne_nil hab
+    have hty : typeOf? v ≠ none := fun h => hne (absent_nil_of_typeOf h)
+    cases c <;>
+      simp [built, hab, MaybeV.isNil, MaybeV.isPresent, MaybeV.or, MaybeV.letRun, MaybeV.unwrapInterface,
+        MaybeV.type, MaybeV.conv, someConv, hne, hty]
+  · cases c <;>
+      simp [built, hab, MaybeV.isNil, MaybeV.isPresent, MaybeV.or, MaybeV.letRun, MaybeV.unwrapInterface,
+        MaybeV.type, MaybeV.conv, someConv, MaybeV.toStr, noneOverrides, allConversions]
+
+example : ∃ m, mk .just (.ptr (.int .int) none) = .ok m ∧ m.isNil = true ∧ m.conv "ToInt8" = .errNil := ⟨_, rfl, rfl, rfl⟩
+example : ∃ m, mk (.generics .slice) (.slice .nil) = .ok m ∧ m.isNil = false ∧ m.isPresent = true := ⟨_, rfl, rfl, rfl⟩
+
+/-- `None`, `JustGenerics[any](nil)` and `JustGenerics[*T](nil)`: different representations of absence, same observations -/
+theorem C01_absent_obsEq (h : Heap) (c c' : Ctor) (v v' : GoVal) (hv : absent v = true) (hv' : absent v' = true) :
+    ObsEq h (built c v) (built c' v') := by
+  cases c <;> cases c' <;>
+    simp [ObsEq, built, hv, hv', MaybeV.isNil, MaybeV.isPresent, MaybeV.or, MaybeV.letRun, MaybeV.unwrapInterface,
+      MaybeV.type, MaybeV.conv, someConv, MaybeV.toStr] <;>
+    (intro c hc; revert c; decide)
+
+/-! ### FlatMap and the monad laws -/
+
+/-- `FlatMap(f)` is `f` applied to the wrapped value (for every result type of `f`: pure, panicking, logging …) -/
+theorem C01_flatMap {α} (c : Ctor) (v : GoVal) (f : GoVal → α) :
+    ∃ m, mk c v = .ok m ∧ m.flatMap f = f (wrapped c v) := by
+  refine ⟨built c v, mk_eq c v, ?_⟩
+  cases c with
+  | just => cases hab : absent v <;> simp [built, wrapped, hab, MaybeV.flatMap, noneBase, MaybeV.ref]
+  | generics T => simp [built, wrapped, MaybeV.flatMap]
+
+/-- The same agreement stated on `observe`, the function the driver runs for every op token: for the observers the
+    property names, the observation is the `Spec` value — a function of `absent v` and `v` alone. -/
+theorem C01_observe_spec {α} (c : Ctor) (v : GoVal) (h : Heap) :
+    ∃ m, mk c v = .ok m ∧
+      observe (α := α) h m .isNil = .ok (h, .bool (Spec.isNil v)) ∧
+      observe (α := α) h m .isPresent = .ok (h, .bool (Spec.isPresent v)) ∧
+      (∀ d, observe (α := α) h m (.or d) = .ok (h, .val (Spec.or v d))) ∧
+      observe (α := α) h m .letRun = .ok (h, .count (Spec.letCount v)) ∧
+      observe (α := α) h m .unwrapInterface = .ok (h, .val (Spec.unwrapInterface v)) ∧
+      observe (α := α) h m .type = .ok (h, .type (Spec.type v)) ∧
+      (∀ cv ∈ allConversions, observe (α := α) h m (.conv cv) = .ok (h, .conv (Spec.conv v))) ∧
+      (absent v = true → observe (α := α) h m .toString = .ok (h, .str (some Spec.nilString))) ∧
+      (∀ f : GoVal → R α, observe h m (.flatMap f) = (f (wrapped c v)).map (fun r => (h, .res r))) := by
+  obtain ⟨m, hm, h1, h2, h3, h4, h5, _, h7, _, h9, h10⟩ := C01_agree c v
+  refine ⟨m, hm, ?_, ?_, ?_, ?_, ?_, ?_, ?_, ?_, ?_⟩
+  · simp [observe, h1, Spec.isNil, pure, Except.pure]
+  · simp [observe, h2, h1, Spec.isPresent, pure, Except.pure]
+  · intro d; simp [observe, h3, Spec.or, pure, Except.pure]
+  · have h4' := h4 (σ := Nat) (· + 1) 0
+    simp only [observe, h4', Spec.letCount, pure, Except.pure]
+    try (cases absent v <;> rfl)
+  · simp [observe, h5, Spec.unwrapInterface, pure, Except.pure]
+  · simp [observe, h7, Spec.type, pure, Except.pure]
+  · intro cv hcv
+    have := h9 cv hcv
+    simp only [observe, Spec.conv, pure, Except.pure]
+    cases hab : absent v <;> cases hc : m.conv cv <;> simp_all
+  · intro hab; simp [observe, h10 hab h, Spec.nilString, pure, Except.pure]
+  · intro f
+    obtain ⟨m2, hm2, hf2⟩ := C01_flatMap c v f
+    rw [hm] at hm2; cases hm2
+    simp only [observe, hf2, bind, Except.bind, Except.map, pure, Except.pure]
+    try (cases f (wrapped c v) <;> rfl)
+
+/-- Left identity `Just(a).FlatMap(f) = f(a)`: exact for `JustGenerics[T]`, and for `Maybe.Just` whenever `a` is not
+    a typed nil pointer.  (`Maybe.Just` maps a typed nil pointer to `None`, whose wrapped value is the untyped nil:
+    there `Just(a).FlatMap(f) = f(nil)` — the first conjunct of `C01_flatMap` with `wrapped`.) -/
+theorem C01_left_identity {α} (c : Ctor) (a : GoVal) (f : GoVal → α)
+    (h : c = .just → ∀ t, a ≠ .ptr t none) :
+    ∃ m, mk c a = .ok m ∧ m.flatMap f = f a := by
+  obtain ⟨m, hm, hf⟩ := C01_flatMap c a f
+  refine ⟨m, hm, ?_⟩
+  rw [hf]
+  cases c with
+  | generics T => rfl
+  | just =>
+    cases a with
+    | ptr t p => cases p with
+      | none => exact absurd rfl (h rfl t)
+      | some p => rfl
+    | _ => rfl
+
+example : ∀ t, (GoVal.int .int 5) ≠ .ptr t none := by intro t h; cases h
+
+/-- Right identity `m.FlatMap(Just) ≈ m`, for every constructor `c'` of the same instantiation as `m` (the only ones
+    `FlatMap`'s signature admits): the result is observationally equal to `m`, and identical when `c' = c`. -/
+theorem C01_right_identity (c c' : Ctor) (v : GoVal) (hp : c'.param = c.param) :
+    ∃ m m', mk c v = .ok m ∧ m.flatMap (mk c') = .ok m' ∧ (∀ h, ObsEq h m' m) ∧ (c' = c → m' = m) := by
+  refine ⟨built c v, built c' (wrapped c v), mk_eq c v, ?_, ?_, ?_⟩
+  · obtain ⟨m, hm, hf⟩ := C01_flatMap c v (mk c')
+    rw [mk_eq] at hm; cases hm; rw [hf, mk_eq]
+  · cases hab : absent v
+    · -- present: both are `some T v false true`
+      have hw : wrapped c v = v := by cases c <;> simp [wrapped, hab]
+      have hb : built c' v = built c v := by
+        cases c <;> cases c' <;> simp_all [built, Ctor.param]
+      rw [hw, hb]; exact fun h => ObsEq.rfl' h _
+    · have hw : absent (wrapped c v) = true := by
+        cases c with
+        | just => simp only [wrapped, hab]; rfl
+        | generics T => exact hab
+      exact fun h => C01_absent_obsEq h c' c _ _ hw hab
+  · intro e; subst e
+    cases c' with
+    | just =>
+      cases hab : absent v
+      · simp only [built, wrapped, hab]; simp [hab]
+      · simp only [built, wrapped, hab]; rfl
+    | generics T => simp [built, wrapped]
+
+example : (Ctor.generics .any).param = Ctor.just.param := rfl
+
+/-- Associativity, for callbacks that may panic (`R`) … -/
+theorem C01_assoc (m : MaybeV) (f g : GoVal → R MaybeV) :
+    (do let r ← m.flatMap f; r.flatMap g) = m.flatMap (fun x => do let r ← f x; r.flatMap g) := by
+  cases m <;> rfl
+
+/-- … and for pure callbacks. -/
+theorem C01_assoc_pure (m : MaybeV) (f g : GoVal → MaybeV) :
+    (m.flatMap f).flatMap g = m.flatMap (fun x => (f x).flatMap g) := by
+  cases m <;> rfl
+
+/-! ### ToMaybe flattens exactly one level -/
+
+/-- `ToMaybe` of a Maybe wrapping a Maybe `m'` of the same instantiation is `m'` itself (not `m'.ToMaybe()`:
+    exactly one level); wrapping anything else — or nothing — it is the receiver. -/
+theorem C01_toMaybe (c : Ctor) (v : GoVal) :
+    ∃ m, mk c v = .ok m ∧
+      m.toMaybe = (if absent v then m else (innerMaybe? c.param v).getD m) := by
+  refine ⟨built c v, mk_eq c v, ?_⟩
+  cases hab : absent v
+  · cases c with
+    | just =>
+      cases v <;> simp_all [built, absent, MaybeV.toMaybe, innerMaybe?, Ctor.param, typeOf?, implementsTy, asMaybe?]
+      case some T r n p => by_cases hT : T = .any <;> simp [hT, eq_comm]
+    | generics T =>
+      cases v <;> simp_all [built, absent, MaybeV.toMaybe, innerMaybe?, Ctor.param, typeOf?, implementsTy, asMaybe?]
+      case some T' r n p => by_cases hT : T' = T <;> simp [hT]
+      case none => by_cases hT : T = .any <;> simp [hT]
+  · cases c <;> simp [built, hab, MaybeV.toMaybe]
+
+/-- The flattening case spelled out with the constructors: `Maybe.Just(m').ToMaybe() = m'` and
+    `JustGenerics[any](m').ToMaybe() = m'` for every `m' : MaybeDef[any]` (`None` included). -/
+theorem C01_toMaybe_flattens (c : Ctor) (hc : c.param = .any) (m' : MaybeV) (hm' : m'.param = .any) :
+    ∃ m, mk c m'.toVal = .ok m ∧ m.toMaybe = m' := by
+  obtain ⟨m, hm, ht⟩ := C01_toMaybe c m'.toVal
+  refine ⟨m, hm, ?_⟩
+  rw [ht, hc]
+  cases m' with
+  | none => simp [MaybeV.toVal, absent, innerMaybe?]
+  | some T r n p =>
+    simp [MaybeV.param] at hm'
+    subst hm'
+    simp [MaybeV.toVal, absent, innerMaybe?]
+
+/-- exactly one level: a Maybe nested twice loses one level, not two -/
+example :
+    (built .just (built .just (built .just (.int .int 5)).toVal).toVal).toMaybe = built .just (built .just (.int .int 5)).toVal ∧
+    (built .just (built .just (built .just (.int .int 5)).toVal).toVal).toMaybe ≠ built .just (.int .int 5) := by
+  constructor <;> decide
+
+/-! ### Clone -/
+
+theorem implementsTy_ptr (T t : Ty) (a b : Option Nat) : implementsTy T (.ptr t a) = implementsTy T (.ptr t b) := by
+  have hn : ∀ a, (GoVal.ptr t a != GoVal.nil) = true := by intro a; simp
+  cases T <;> simp [implementsTy, typeOf?, hn]
+
+/-- cloning a Maybe whose value is not a non-nil pointer returns the very same Maybe and touches nothing -/
+theorem clone_nonptr (c : Ctor) (v : GoVal) (h : Heap) (hty : HasTy c.param v) (hnp : ∀ t a, v ≠ .ptr t (some a)) :
+    (built c v).clone h = .ok (h, built c v) := by
+  cases hab : absent v
+  · have hne : v ≠ .nil := not_absent_ne_nil hab
+    have himp : implementsTy c.param v = true := by
+      rcases hty with h1 | ⟨h1, _⟩
+      · exact h1
+      · exact absurd h1 hne
+    have hb : built c v = .some c.param v false true := by cases c <;> simp [built, hab, Ctor.param]
+    rw [hb]
+    cases v with
+    | nil => exact absurd rfl hne
+    | ptr t p =>
+      cases p with
+      | none => simp [absent] at hab
+      | some a => exact absurd rfl (hnp t a)
+    | _ =>
+      simp [MaybeV.clone, cloneTo, MaybeV.isNil, MaybeV.unwrap, valueOf, RV.kind, kindOf, RV.interface, assertTy, himp,
+        justGenerics_eq, hab, bind, Except.bind, pure, Except.pure]
+  · cases c with
+    | just => simp [built, hab, MaybeV.clone, pure, Except.pure]
+    | generics T =>
+      simp [built, hab, MaybeV.clone, cloneTo, MaybeV.isNil, MaybeV.unwrap, justGenerics_eq, bind, Except.bind, pure, Except.pure]
+
+/-- `Clone` never panics and returns an equal Maybe: the very same Maybe when `v` is not a non-nil pointer; when it
+    is, the Maybe built from a *fresh* pointer — an address distinct from `v`'s and from every address in use —
+    whose target is an equal copy of `v`'s target (so IsNil/IsPresent/Type/conversions coincide and ToString coincides
+    in the resulting heap), and no existing cell is modified. -/
+theorem C01_clone (c : Ctor) (v : GoVal) (h : Heap) (hty : HasTy c.param v) (hwf : WF h v) :
+    ∃ m h' m', mk c v = .ok m ∧ m.clone h = .ok (h', m') ∧
+      m'.param = m.param ∧ m'.isNil = m.isNil ∧ m'.isPresent = m.isPresent ∧ m'.type = m.type ∧
+      (∀ cv, m'.conv cv = m.conv cv) ∧ m'.toStr h' = m.toStr h' ∧
+      (∀ b, b < h.length → h'[b]? = h[b]?) ∧
+      (match v with
+       | .ptr t (some a) => m' = built c (.ptr t (some h.length)) ∧ h.length ≠ a ∧ h'[h.length]? = h[a]? ∧ a < h.length
+       | _ => m' = m ∧ h' = h ∧ ObsEq h' m' m) := by
+  refine ⟨built c v, ?_⟩
+  by_cases hp : ∃ t a, v = .ptr t (some a)
+  · obtain ⟨t, a, rfl⟩ := hp
+    have hab : absent (.ptr t (some a)) = false := rfl
+    have himp : implementsTy c.param (.ptr t (some a)) = true := by
+      rcases hty with h1 | ⟨h1, _⟩
+      · exact h1
+      · cases h1
+    have hb : ∀ a', built c (.ptr t (some a')) = .some c.param (.ptr t (some a')) false true := by
+      intro a'; cases c <;> simp [built, absent, Ctor.param]
+    obtain ⟨x, hx, hok⟩ := hwf t a rfl
+    have ha : a < h.length := by
+      rcases Nat.lt_or_ge a h.length with h1 | h1
+      · exact h1
+      · rw [List.getElem?_eq_none h1] at hx; cases hx
+    have himp' : implementsTy c.param (.ptr t (some h.length)) = true := by
+      rw [implementsTy_ptr _ _ _ (some a)]; exact himp
+    have hfr : ∀ b, b < h.length → ((h ++ [zeroOf t]).set h.length x)[b]? = h[b]? := by
+      intro b hb'
+      rw [List.getElem?_set_ne (by omega), List.getElem?_append_left hb']
+    have hnew : ((h ++ [zeroOf t]).set h.length x)[h.length]? = some x := by simp
+    refine ⟨(h ++ [zeroOf t]).set h.length x, built c (.ptr t (some h.length)), mk_eq c _, ?_, ?_, ?_, ?_, ?_, ?_, ?_, hfr, ?_⟩
+    · rw [hb, hb]
+      cases hif : isIfaceTy t
+      · have hxt : typeOf? x = some t := by simpa [PointeeOK, hif] using hok
+        have hz : typeOf? (zeroOf t) = some t := by
+          cases x <;> simp [typeOf?] at hxt <;> subst hxt <;> rfl
+        simp [MaybeV.clone, cloneTo, MaybeV.isNil, MaybeV.unwrap, valueOf, RV.kind, kindOf, RV.elem, hx, RV.type, hif,
+          hxt, rvNew, RV.set, hz, bind, Except.bind, pure, Except.pure]
+        cases hT : c.param <;>
+          simp [zeroOf, valueOf, RV.kind, kindOf, RV.isNil, RV.interface, assertTy, hT ▸ himp', justGenerics_eq, absent,
+            bind, Except.bind, pure, Except.pure]
+      · simp [MaybeV.clone, cloneTo, MaybeV.isNil, MaybeV.unwrap, valueOf, RV.kind, kindOf, RV.elem, hx, RV.type, hif,
+          rvNew, RV.set, bind, Except.bind, pure, Except.pure]
+        cases hT : c.param <;>
+          simp [zeroOf, valueOf, RV.kind, kindOf, RV.isNil, RV.interface, assertTy, hT ▸ himp', justGenerics_eq, absent,
+            bind, Except.bind, pure, Except.pure]
+    · rw [hb, hb]; rfl
+    · rw [hb, hb]; rfl
+    · rw [hb, hb]; rfl
+    · rw [hb, hb]; rfl
+    · intro cv; rw [hb, hb]; rfl
+    · rw [hb, hb]
+      simp only [MaybeV.toStr, Bool.false_eq_true, if_false, fmtV, hnew, hfr a ha, hx]
+    · exact ⟨rfl, by omega, by rw [hnew, hx], ha⟩
+  · have hnp : ∀ t a, v ≠ .ptr t (some a) := fun t a e => hp ⟨t, a, e⟩
+    refine ⟨h, built c v, mk_eq c v, clone_nonptr c v h hty hnp, rfl, rfl, rfl, rfl, fun _ => rfl, rfl, fun _ _ => rfl, ?_⟩
+    cases v with
+    | ptr t p =>
+      cases p with
+      | none => exact ⟨rfl, rfl, ObsEq.rfl' _ _⟩
+      | some a => exact absurd rfl (hnp t a)
+    | _ => exact ⟨rfl, rfl, ObsEq.rfl' _ _⟩
+
+/-- non-vacuity: a heap with one int cell and a pointer to it satisfy the hypotheses, for both constructors -/
+example : HasTy (Ctor.generics (.ptr (.int .int))).param (.ptr (.int .int) (some 0)) ∧ HasTy Ctor.just.param (.ptr (.int .int) (some 0))
+    ∧ WF [.int .int 7] (.ptr (.int .int) (some 0)) :=
+  ⟨Or.inl rfl, Or.inl rfl, fun t a e => by cases e; exact ⟨_, rfl, rfl⟩⟩
+
+/-- non-vacuity for a pointer to an `interface{}` variable (holding an int, or nil) -/
+example : WF [.int .int 7, .nil] (.ptr .any (some 0)) ∧ WF [.int .int 7, .nil] (.ptr .any (some 1)) :=
+  ⟨fun t a e => by cases e; exact ⟨_, rfl, Or.inr rfl⟩, fun t a e => by cases e; exact ⟨_, rfl, Or.inl rfl⟩⟩
+
+/-! ### totality -/
+
+theorem built_param (c : Ctor) (v : GoVal) : (built c v).param = c.param := by
+  cases c with
+  | just => cases hab : absent v <;> simp [built, hab, MaybeV.param, Ctor.param]
+  | generics T => rfl
+
+theorem toPtr_ok (c : Ctor) (v : GoVal) (h : Heap) (hwf : WF h v) : ∃ r, (built c v).toPtr h = .ok r := by
+  cases hab : absent v
+  · have hb : built c v = .some c.param v false true := by cases c <;> simp [built, hab, Ctor.param]
+    rw [hb]
+    cases v with
+    | ptr t p =>
+      cases p with
+      | none => simp [absent] at hab
+      | some a =>
+        obtain ⟨x, hx, _⟩ := hwf t a rfl
+        cases hif : isIfaceTy t <;>
+        · simp only [MaybeV.toPtr, fpIsPtr, fpKind, valueOf, RV.kind, kindOf, indirect, RV.elem, hx, hif, RV.interface, bind,
+            Except.bind, pure, Except.pure, Bool.not_false, Bool.and_true, decide_true, if_true, Bool.false_eq_true, if_false]
+          split
+          · exact ⟨_, rfl⟩
+          · split <;> exact ⟨_, rfl⟩
+    | _ => exact ⟨_, rfl⟩
+  · cases c with
+    | just => simp [built, hab, MaybeV.toPtr, pure, Except.pure]
+    | generics T => simp [built, hab, MaybeV.toPtr, pure, Except.pure]
+
+/-- `CloneTo` of a Maybe whose value is not a non-nil pointer never looks at the destination -/
+theorem cloneTo_nonptr (c : Ctor) (v d : GoVal) (h : Heap) (hty : HasTy c.param v) (hnp : ∀ t a, v ≠ .ptr t (some a)) :
+    ∃ r, cloneTo h c.param (built c v) d = .ok r := by
+  cases hab : absent v
+  · have hne : v ≠ .nil := not_absent_ne_nil hab
+    have himp : implementsTy c.param v = true := by
+      rcases hty with h1 | ⟨h1, _⟩
+      · exact h1
+      · exact absurd h1 hne
+    have hb : built c v = .some c.param v false true := by cases c <;> simp [built, hab, Ctor.param]
+    rw [hb]
+    cases v with
+    | nil => exact absurd rfl hne
+    | ptr t p =>
+      cases p with
+      | none => simp [absent] at hab
+      | some a => exact absurd rfl (hnp t a)
+    | _ =>
+      simp [cloneTo, MaybeV.isNil, MaybeV.unwrap, valueOf, RV.kind, kindOf, RV.interface, assertTy, himp,
+        justGenerics_eq, bind, Except.bind, pure, Except.pure]
+  · cases c with
+    | just => simp [built, hab, cloneTo, MaybeV.isNil, MaybeV.unwrap, justGenerics_eq, bind, Except.bind, pure, Except.pure]
+    | generics T =>
+      simp [built, hab, cloneTo, MaybeV.isNil, MaybeV.unwrap, justGenerics_eq, bind, Except.bind, pure, Except.pure]
+
+/-- `CloneTo` of a non-nil pointer into any destination of the same static type: nil / not a pointer (a fresh copy is
+    returned) or a live pointer of the same pointer type (the copy is written through it) -/
+theorem cloneTo_ptr_ok (T t : Ty) (a : Nat) (h : Heap) (d x : GoVal) (hx : h[a]? = some x) (hok : PointeeOK t x)
+    (himp : implementsTy T (.ptr t (some a)) = true) (hwd : WF h d)
+    (hsame : ∀ t' b, d = .ptr t' (some b) → t' = t) :
+    ∃ r, cloneTo h T (.some T (.ptr t (some a)) false true) d = .ok r := by
+  have ha : a < h.length := by
+    rcases Nat.lt_or_ge a h.length with h1 | h1
+    · exact h1
+    · rw [List.getElem?_eq_none h1] at hx; cases hx
+  have himp' : implementsTy T (.ptr t (some h.length)) = true := by
+    rw [implementsTy_ptr _ _ _ (some a)]; exact himp
+  cases hif : isIfaceTy t
+  · -- pointer to a variable of a concrete type
+    have hxt : typeOf? x = some t := by simpa [PointeeOK, hif] using hok
+    have hz : typeOf? (zeroOf t) = some t := by
+      cases x <;> simp [typeOf?] at hxt <;> subst hxt <;> rfl
+    cases d with
+    | ptr t' p =>
+      cases p with
+      | none =>
+        simp [cloneTo, MaybeV.isNil, MaybeV.unwrap, valueOf, RV.kind, kindOf, RV.elem, hx, hif, RV.type, hxt, rvNew, RV.set, hz,
+          RV.isNil, RV.interface, assertTy, himp', justGenerics_eq, bind, Except.bind, pure, Except.pure]
+      | some b =>
+        obtain ⟨y, hy, hyok⟩ := hwd t' b rfl
+        have ht' : t' = t := hsame t' b rfl
+        subst ht'
+        have hyt : typeOf? y = some t' := by simpa [PointeeOK, hif] using hyok
+        have hb : b < h.length := by
+          rcases Nat.lt_or_ge b h.length with h1 | h1
+          · exact h1
+          · rw [List.getElem?_eq_none h1] at hy; cases hy
+        have hfr' : (h ++ [x])[b]? = some y := by rw [List.getElem?_append_left hb]; exact hy
+        simp [cloneTo, MaybeV.isNil, MaybeV.unwrap, valueOf, RV.kind, kindOf, RV.elem, hx, hif, RV.type, hxt, rvNew, RV.set, hz,
+          RV.isNil, hfr', hyt, justGenerics_eq, bind, Except.bind, pure, Except.pure]
+    | _ =>
+      simp [cloneTo, MaybeV.isNil, MaybeV.unwrap, valueOf, RV.kind, kindOf, RV.elem, hx, hif, RV.type, hxt, rvNew, RV.set, hz,
+        RV.isNil, RV.interface, assertTy, himp', justGenerics_eq, bind, Except.bind, pure, Except.pure]
+  · -- pointer to an interface-typed variable: the Values involved are of kind Interface
+    cases d with
+    | ptr t' p =>
+      cases p with
+      | none =>
+        simp [cloneTo, MaybeV.isNil, MaybeV.unwrap, valueOf, RV.kind, kindOf, RV.elem, hx, hif, RV.type, rvNew, RV.set,
+          RV.isNil, RV.interface, assertTy, himp', justGenerics_eq, bind, Except.bind, pure, Except.pure]
+      | some b =>
+        obtain ⟨y, hy, _⟩ := hwd t' b rfl
+        have ht' : t' = t := hsame t' b rfl
+        subst ht'
+        have hb : b < h.length := by
+          rcases Nat.lt_or_ge b h.length with h1 | h1
+          · exact h1
+          · rw [List.getElem?_eq_none h1] at hy; cases hy
+        have hfr' : (h ++ [x])[b]? = some y := by rw [List.getElem?_append_left hb]; exact hy
+        simp [cloneTo, MaybeV.isNil, MaybeV.unwrap, valueOf, RV.kind, kindOf, RV.elem, hx, hif, RV.type, rvNew, RV.set,
+          RV.isNil, hfr', justGenerics_eq, bind, Except.bind, pure, Except.pure]
+    | _ =>
+      simp [cloneTo, MaybeV.isNil, MaybeV.unwrap, valueOf, RV.kind, kindOf, RV.elem, hx, hif, RV.type, rvNew, RV.set,
+        RV.isNil, RV.interface, assertTy, himp', justGenerics_eq, bind, Except.bind, pure, Except.pure]
+
+/-- what a caller must respect for the two observers that take more than a plain value: a `FlatMap` callback that
+    itself returns, and a `CloneTo` destination that is a live pointer of the same pointer type as `v` (or nil /
+    no pointer at all).  Every other observer is unconditional. -/
+def ArgOK {α} (v : GoVal) (h : Heap) : Observer α → Prop
+  | .cloneTo d => WF h d ∧ ∀ t a t' b, v = .ptr t (some a) → d = .ptr t' (some b) → t' = t
+  | .flatMap f => ∀ x, ∃ r, f x = .ok r
+  | _ => True
+
+/-- **No observer panics, for any `v`, with both constructors**: construction, every method of `MaybeDef[T]`, the
+    extra `To*` methods and `CloneTo` all return — although the model of `reflect` panics on `IsNil` of a non-nillable
+    kind, on `Elem`/`Interface`/`Type` of the zero Value, on `Set` of an unaddressable or differently typed Value, and a
+    failed type assertion panics. -/
+theorem C01_total {α} (c : Ctor) (v : GoVal) (h : Heap) (o : Observer α)
+    (hty : HasTy c.param v) (hwf : WF h v) (harg : ArgOK v h o) :
+    ∃ m, mk c v = .ok m ∧ ∃ r, observe h m o = .ok r := by
+  refine ⟨built c v, mk_eq c v, ?_⟩
+  cases o with
+  | toPtr =>
+    obtain ⟨r, hr⟩ := toPtr_ok c v h hwf
+    exact ⟨_, by simp [observe, hr, bind, Except.bind]; rfl⟩
+  | clone =>
+    obtain ⟨m, h', m', hm, hc, _⟩ := C01_clone c v h hty hwf
+    rw [mk_eq] at hm; cases hm
+    exact ⟨_, by simp [observe, hc, bind, Except.bind]; rfl⟩
+  | cloneTo d =>
+    have hr : ∃ r, cloneTo h (built c v).param (built c v) d = .ok r := by
+      rw [built_param]
+      by_cases hp : ∃ t a, v = .ptr t (some a)
+      · obtain ⟨t, a, rfl⟩ := hp
+        obtain ⟨x, hx, hxt⟩ := hwf t a rfl
+        have himp : implementsTy c.param (.ptr t (some a)) = true := by
+          rcases hty with h1 | ⟨h1, _⟩
+          · exact h1
+          · cases h1
+        have hb : built c (.ptr t (some a)) = .some c.param (.ptr t (some a)) false true := by
+          cases c <;> simp [built, absent, Ctor.param]
+        rw [hb]
+        exact cloneTo_ptr_ok _ t a h d x hx hxt himp harg.1 (fun t' b e => harg.2 t a t' b rfl e)
+      · exact cloneTo_nonptr c v d h hty (fun t a e => hp ⟨t, a, e⟩)
+    obtain ⟨r, hr⟩ := hr
+    exact ⟨_, by simp [observe, hr, bind, Except.bind]; rfl⟩
+  | just x => exact ⟨_, by simp [observe, MaybeV.justM, just_eq, bind, Except.bind]; rfl⟩
+  | flatMap f =>
+    obtain ⟨r, hr⟩ := harg ((built c v).ref)
+    have : (built c v).flatMap f = f (built c v).ref := by cases built c v <;> rfl
+    exact ⟨_, by simp [observe, this, hr, bind, Except.bind]; rfl⟩
+  | _ => exact ⟨_, rfl⟩
+
+/-- non-vacuity of the hypotheses: cloning a live `*int` into another live `*int` -/
+example : ArgOK (α := MaybeV) (.ptr (.int .int) (some 0)) [.int .int 7, .int .int 9] (.cloneTo (.ptr (.int .int) (some 1))) :=
+  ⟨fun t a e => by cases e; exact ⟨_, rfl, rfl⟩, fun t a t' b e e' => by cases e; cases e'; rfl⟩
+
+/-- the guards matter: the same `reflect` calls without them do panic in the model (the pinned, pre-fix `ToPtr`
+    called `Interface()` on the zero Value for a typed nil pointer) -/
+example : (do let ind ← indirect [] (valueOf (.ptr (.int .int) none)); ind.interface : R GoVal) =
+    .error "reflect: call of reflect.Value.Interface on zero Value" := rfl
+example : (valueOf (.int .int 3)).isNil = .error "reflect: call of reflect.Value.IsNil on a non-nillable Value" := rfl
+
+/-! ### closing theorems over the inventory regenerated from maybe.go on every run (`Gen/MaybeInventory.lean`) -/
+
+/-- every method of the interface `MaybeDef` is a method of `someDef` that the model has and the harness exercises -/
+theorem C01_gen_interface_observed :
+    Gen.maybeDefMethods.all someDefMethodNames.contains = true := by decide
+
+/-- `someDef[T]` has exactly the methods the model mirrors -/
+theorem C01_gen_someDef_methods :
+    sameSet (Gen.someDefMethods.map (·.1)) someDefMethodNames = true := by decide
+
+/-- `noneDef` overrides exactly the methods listed in `noneOverrides` (all others are promoted from the embedded
+    `someDef[interface{}]`, as the `none` branches of the model assume), each with the one-line body the model mirrors -/
+theorem C01_gen_none_overrides :
+    sameSet (Gen.noneDefMethods.map (·.1)) noneOverrides = true ∧
+    Gen.noneDefMethods.all noneBodies.contains = true ∧ noneBodies.all Gen.noneDefMethods.contains = true := by decide
+
+/-- every conversion of `someDef` starts with `if IsNil() { return zero, ErrConversionNil }` (or delegates to one that
+    does) and `ErrConversionNil` is mentioned nowhere else in `someDef`'s methods: what `someConv` abstracts -/
+theorem C01_gen_conversions_guarded :
+    allConversions.all (fun c => Gen.someDefMethods.any (fun e => e.1 == c && convEntryOK e)) = true ∧
+    Gen.someDefMethods.all (fun e => allConversions.contains e.1 || e.2.2.1 == 0) = true := by decide
+
+end FpgoVerif.C01
